@@ -3,7 +3,7 @@
 # Prints the alarms, exits 1 if there is any: an alarm on one of these is a false alarm of the machinery.
 cd /verif
 bad=0
-for f in benign/*.diff benign/agents/*.diff benign/agents2/*.diff benign/agents3/*.diff benign/agents4/*.diff benign/agents5/*.diff benign/agents6/*.diff benign/agents7/*.diff benign/agents8/*.diff benign/agents9/*.diff; do
+for f in benign/*.diff benign/agents/*.diff benign/agents2/*.diff benign/agents3/*.diff benign/agents4/*.diff benign/agents5/*.diff benign/agents6/*.diff benign/agents7/*.diff benign/agents8/*.diff benign/agents9/*.diff benign/agents10/*.diff benign/agents11/*.diff; do
   out=$(tools/ovseed.sh "$f" all "${1:-/verif/bin/gldapcheck}")
   if [ -n "$out" ]; then echo "=== $f"; echo "$out"; bad=1; fi
 done
